@@ -206,4 +206,104 @@ theorem Pre.le {buf : List UInt8} {bp : BufPos} {ip : RecordPos} (h : Pre buf bp
     have c := nl_some h.2.2
     simp only [lastPos]; omega
 
+
+/-! ## does a group fit into a buffer? -/
+
+theorem nl_restrict {t e : List UInt8} {a b : Nat} (h : nl (t ++ e) a = some b)
+    (hb : b ≤ t.length) : nl t a = some b := by
+  cases ht : nl t a with
+  | some b' =>
+    have := nl_append e ht
+    rw [h] at this
+    exact this.symm
+  | none =>
+    exfalso
+    have hno := nl_none ht
+    obtain ⟨hab, -, hlf, -, -⟩ := nl_some h
+    apply hno
+    rw [List.mem_iff_getElem?]
+    refine ⟨b - 1 - a, ?_⟩
+    rw [List.getElem?_drop]
+    have : a + (b - 1 - a) = b - 1 := by omega
+    rw [this]
+    rw [List.getElem?_append_left (by omega)] at hlf
+    exact hlf
+
+/-- offset after the fourth LF -/
+def nl4 (t : List UInt8) : Option Nat :=
+  (nl t 0).bind fun a => (nl t a).bind fun b => (nl t b).bind fun c => nl t c
+
+/-- the group at the start of `t` fits into a buffer of `c` bytes: its extent through the
+fourth LF is at most `c`, or – for an unterminated last group – its extent plus one is -/
+def Fits (t : List UInt8) (c : Nat) : Prop :=
+  match nl4 t with
+  | some e => e ≤ c
+  | none => t.length < c
+
+theorem nl4_some {t : List UInt8} {e : Nat} (h : nl4 t = some e) :
+    ∃ a b c, nl t 0 = some a ∧ nl t a = some b ∧ nl t b = some c ∧ nl t c = some e := by
+  unfold nl4 at h
+  cases h1 : nl t 0 with
+  | none => simp [h1] at h
+  | some a =>
+    simp only [h1, Option.bind_some] at h
+    cases h2 : nl t a with
+    | none => simp [h2] at h
+    | some b =>
+      simp only [h2, Option.bind_some] at h
+      cases h3 : nl t b with
+      | none => simp [h3] at h
+      | some c =>
+        simp only [h3, Option.bind_some] at h
+        exact ⟨a, b, c, rfl, h2, h3, h⟩
+
+/-- a search that stopped at the end of a buffer starting with the group: the group does not
+fit into the buffer -/
+theorem scan_unfit {buf rest : List UInt8} {bp : BufPos} {ip : RecordPos} (hsc : Scan buf bp ip)
+    (h0 : bp.pos0 = 0) : ¬ Fits (buf ++ rest) buf.length := by
+  unfold Fits
+  cases h4 : nl4 (buf ++ rest) with
+  | none => simp only [List.length_append]; omega
+  | some e =>
+    simp only
+    intro hle
+    obtain ⟨a, b, c, ha, hb, hc, he⟩ := nl4_some h4
+    have ha' := (nl_some ha).1
+    have hb' := (nl_some hb).1
+    have hc' := (nl_some hc).1
+    have he' := (nl_some he).1
+    have ra := nl_restrict ha (by omega)
+    have rb := nl_restrict hb (by omega)
+    have rc := nl_restrict hc (by omega)
+    have re := nl_restrict he hle
+    obtain ⟨hpre, hnone⟩ := hsc
+    cases ip with
+    | head =>
+      simp only [lastPos, h0] at hnone
+      rw [hnone] at ra; cases ra
+    | seq =>
+      have p1 : nl buf bp.pos0 = some bp.seq := hpre
+      rw [h0, ra] at p1
+      simp only [Option.some.injEq] at p1
+      simp only [lastPos, ← p1] at hnone
+      rw [hnone] at rb; cases rb
+    | sep =>
+      obtain ⟨p1, p2⟩ := hpre
+      rw [h0, ra] at p1
+      simp only [Option.some.injEq] at p1
+      rw [← p1, rb] at p2
+      simp only [Option.some.injEq] at p2
+      simp only [lastPos, ← p2] at hnone
+      rw [hnone] at rc; cases rc
+    | qual =>
+      obtain ⟨p1, p2, p3⟩ := hpre
+      rw [h0, ra] at p1
+      simp only [Option.some.injEq] at p1
+      rw [← p1, rb] at p2
+      simp only [Option.some.injEq] at p2
+      rw [← p2, rc] at p3
+      simp only [Option.some.injEq] at p3
+      simp only [lastPos, ← p3] at hnone
+      rw [hnone] at re; cases re
+
 end SeqIo.Fastq
